@@ -18,13 +18,22 @@ def cases(tier, rng):
     for body in progs.small_bodies(alpha, 2):
         rules = progs.small_program(progs.OR(body, progs.NOT(progs.C("e", progs.X)), progs.AND(progs.CUT, progs.C("n", progs.X))))
         out.append((progs.hist(rules, [progs.build(0, [atom("a"), var(0, "$Q")])] + ["(solve 0)"] * 8 + ["(ask 0)"] * 2), "small-or-solve"))
+    # time(..) nodes (first answer only) in first / last clauses, followed by goals that reject the first answers
+    from gen.progs import C, U, AND, OR, NOT, FAIL, X, Y, i, bip, rule, fact
+    for g in (C("n", X), C("d", X), OR(U(X, i(1)), U(X, i(2))), AND(C("n", X), C("e", X))):
+        for h in (bip("greater_than", X, i(1)), C("e", X), U(X, i(2)), FAIL):
+            tg = op("time", g)
+            for body in (AND(tg, h), AND(C("n", Y), tg, h), OR(AND(tg, h), FAIL), AND(tg, op("time", h)), AND(g, op("time", h)), NOT(AND(tg, h))):
+                for rules in ([rule(cplx("a", X), body), fact("a", i(9))], [fact("a", i(9)), rule(cplx("a", X), body)]):
+                    out.append((progs.hist(list(progs.LIB) + rules, [progs.build(0, [atom("a"), var(0, "$Q")])] + [progs.ask(0)] * 8), "time-shape"))
     n = 500 if tier == "quick" else 10000
     out += histgen.random_cases(rng, n, dict(), nasks_choices=(8, 12, 16), solve_mix=False)
     return out
 
 RULE = ("(a) bodies of 1-3 goals over a 10-goal alphabet (multi-answer calls, =, >, fail, !, print, not(..)) in a($X) :- BODY. a(9). "
         "asked 9 times (all of them in the thorough tier, 35% in the quick tier); the same under a disjunction with not and "
-        "cut through solve (8 times) and next_solution; (b) random programs with cut, not, print, disjunctions and built-ins, "
+        "cut through solve (8 times) and next_solution; time(G) (first answer only) for 4 goals G followed by 4 filters in 6 "
+        "positions, as first and as last clause, asked 8 times; (b) random programs with cut, not, print, disjunctions and built-ins, "
         "asked 8-16 times. Checked on the implementation itself: after the first request that reports no answer every further "
         "request reports none and writes nothing; the reference search additionally supplies the number of answers. "
         "Non-trivial = at least three requests were made after the first 'no more answers'.")
